@@ -4,6 +4,7 @@ package c06
 
 import (
 	"fmt"
+	"math"
 	"sort"
 	"strings"
 	"sync"
@@ -31,17 +32,37 @@ func (i *item) ScheduledTime() time.Time { return i.due }
 // ---- history description (what is journalled and replayed)
 
 type op struct {
-	Kind   string        `json:"k"`           // enq | deq | sleep | close | arm | gate | release
-	Key    string        `json:"key,omitempty"`
-	Off    time.Duration `json:"off,omitempty"`  // enq: due = now + off ; sleep: duration
-	Hook   string        `json:"hook,omitempty"` // arm: park the loop at the N-th next hit of Hook
-	N      int           `json:"n,omitempty"`
-	G      int           `json:"g,omitempty"` // racing mode: goroutine
+	Kind string        `json:"k"` // enq | deq | sleep | close | arm | gate | release
+	Key  string        `json:"key,omitempty"`
+	Off  time.Duration `json:"off,omitempty"`  // enq: due = now + off ; sleep: duration
+	Hook string        `json:"hook,omitempty"` // arm: park the loop at the N-th next hit of Hook
+	N    int           `json:"n,omitempty"`
+	G    int           `json:"g,omitempty"` // racing mode: goroutine
+}
+
+// far-future scheduled times (legal: an item parked for "never"); they cannot be written as an offset
+// (time.Duration ends at 292 years), so two sentinel offsets stand for them
+const (
+	farOff2300 = time.Duration(math.MaxInt64)
+	farOff9999 = time.Duration(math.MaxInt64 - 1)
+)
+
+func dueFor(off time.Duration) time.Time {
+	switch off {
+	case farOff2300:
+		return time.Date(2300, 1, 1, 0, 0, 0, 0, time.UTC)
+	case farOff9999:
+		return time.Date(9999, 12, 31, 23, 59, 59, 0, time.UTC)
+	}
+	return time.Now().Add(off)
 }
 
 func (o op) String() string {
 	switch o.Kind {
 	case "enq":
+		if o.Off == farOff2300 || o.Off == farOff9999 {
+			return fmt.Sprintf("enq(%s,@%d)", o.Key, dueFor(o.Off).Year())
+		}
 		return fmt.Sprintf("enq(%s,+%v)", o.Key, o.Off)
 	case "deq":
 		return "deq(" + o.Key + ")"
@@ -101,9 +122,9 @@ type world struct {
 	parkedAt string
 	resume   chan struct{}
 
-	gateOn  atomic.Bool
-	gate    chan struct{}
-	inCb    atomic.Int32
+	gateOn atomic.Bool
+	gate   chan struct{}
+	inCb   atomic.Int32
 
 	closeCall, closeRet int64
 	lastPark            string
@@ -159,7 +180,10 @@ func (w *world) callback(it *item) {
 func (w *world) enq(key string, off time.Duration) {
 	w.mu.Lock()
 	w.nextI++
-	it := &item{id: w.nextI, key: key, due: time.Now().Add(off)}
+	it := &item{id: w.nextI, key: key, due: dueFor(off)}
+	if off == farOff2300 || off == farOff9999 {
+		rec.Count("enq.far_future_item", 1)
+	}
 	r := &opRec{kind: "enq", key: key, it: it, call: w.stamp(), t: time.Now()}
 	w.ops = append(w.ops, r)
 	w.mu.Unlock()
@@ -445,6 +469,9 @@ func genRandom(rng *mon.RNG) ([]op, bool) {
 	var ops []op
 	for i := 0; i < n; i++ {
 		switch r := rng.Intn(100); {
+		case r < 5:
+			// an item scheduled centuries ahead: it never runs and must not get in the way of the others
+			ops = append(ops, op{Kind: "enq", Key: rng.PickStr(keys...), Off: []time.Duration{farOff2300, farOff9999}[rng.Intn(2)]})
 		case r < 40:
 			ops = append(ops, op{Kind: "enq", Key: rng.PickStr(keys...), Off: offs[rng.Intn(len(offs))]})
 		case r < 55:
@@ -469,7 +496,7 @@ func TestCheck(t *testing.T) {
 	rec = mon.Open("C06")
 	defer rec.Close()
 	rec.Note("rule", "a case is one history run against the real Processor in a synctest bubble: (directed) the loop parked at each hook point x hit 1-2 x each placed operation kind (pairs of kinds as well); (random) 4-24 seeded Enqueue/Dequeue/Sleep/Close operations in lock-step with seeded hook parking; (racing) 2-4 goroutines issuing operations at the same virtual instants. Non-trivial = at least one callback was observed or an item was removed before running; distinct = distinct operation list.")
-	rec.Note("require", []string{"park.loop.start", "park.loop.empty", "park.loop.peeked", "park.loop.armed", "park.loop.fired", "park.exec.popped", "callbacks", "placed.close", "placed.enq", "placed.deq", "racing.same_instant_ops", "gated.close_waited_for_callback", "placed.second_close"})
+	rec.Note("require", []string{"park.loop.start", "park.loop.empty", "park.loop.peeked", "park.loop.armed", "park.loop.fired", "park.exec.popped", "callbacks", "enq.far_future_item", "placed.close", "placed.enq", "placed.deq", "racing.same_instant_ops", "gated.close_waited_for_callback", "placed.second_close"})
 	ps := plans()
 	rec.Planned(len(ps))
 	for idx, pl := range ps {
@@ -730,6 +757,9 @@ func runRacing(t *testing.T, idx int, rng *mon.RNG) {
 			if rng.Chance(3, 4) {
 				// due times on the same grid so that timers fire at operation instants
 				o = op{Kind: "enq", Key: key, Off: grid[rng.Intn(len(grid))], G: g}
+				if rng.Chance(1, 12) {
+					o.Off = []time.Duration{farOff2300, farOff9999}[rng.Intn(2)]
+				}
 			} else {
 				o = op{Kind: "deq", Key: key, G: g}
 			}
